@@ -129,7 +129,7 @@ CLAIMED['C15'] = dict(
          "SUMIFS / COUNTIFS when the selected cells are ints/floats and at least one). PARTIAL: "
          "C15_partition_partial / C15_partition_range_partial ('=v' and '<>v' are complementary on every cell / "
          "partition every range for a text operand without wildcards, and for a numeric operand over cells "
-         "that are blank, logical, integer or non-numeric text; float cells are not covered by the proof). "
+         "that are blank, logical, integer, float or non-numeric text). "
          "REFUTED in the model (advisory, coq/Refuted/C15_partition.v, C15_total.v): with a wildcard operand "
          "'apple' satisfies both '=a*' and '<>a*' ('<>' compares literally); a numeric text cell '1' satisfies "
          "both '=1' and '<>1'; 'never fails' is false: COUNTIF({\"apple\";1},\"a*\") and SUMIFS over a "
@@ -139,11 +139,11 @@ CLAIMED['C15'] = dict(
          "criteria texts into the datatype (only the '=v' / '<>v' forms have parse lemmas), the shape-check "
          "results (#VALUE!, AssertionError, IndexError), _numerics' error/logical/text handling and "
          "AVERAGEIF(S)/MAXIFS/MINIFS on non-numeric cells. Every quick run compares the extracted model with "
-         "the real functions (called through apply_meta) on ~53k calls, exactly (values, int/float kind, error "
-         "texts, exception classes): a ~330 x ~90 criterion x cell table through criteria_parser, 3000 sampled "
+         "the real functions (called through apply_meta) on ~90k calls, exactly (values, int/float kind, error "
+         "texts, exception classes): a ~330 x ~90 criterion x cell table through criteria_parser, 8000 sampled "
          "scenarios (ranges up to 5x3 over mixed pools, 1-3 criteria pairs from the grammar) through handle_ifs "
          "and all eight consumers, and shape-mismatch/scalar/empty/ragged ranges; ~8% of the calls are outside "
-         "the model (Unmodelled). The oracle (~45k evaluations) judges selection, aggregation, IFS=IF, "
+         "the model (Unmodelled). The oracle (~75k evaluations) judges selection, aggregation, IFS=IF, "
          "commutation, partition and AVERAGEIFS=SUMIFS/COUNTIFS on the implementation alone.",
     design_ref="DESIGN.md 5 C15",
 )
